@@ -62,6 +62,7 @@ def sha_files(paths):
 
 MODULE_DEPS = {
     "MCBoard.tla": ["Geometry.tla", "Rules.tla", "Text.tla", "MCBoard.tla"],
+    "MCGame.tla": ["Geometry.tla", "Rules.tla", "Text.tla", "Game.tla", "MCGame.tla"],
 }
 
 
@@ -157,14 +158,14 @@ def write_cfg(path, spec="Spec", constants=None, extra_lines=()):
             f.write(ln + "\n")
 
 
-def generate_records(name, module, constants, mode, outpath, timeout, sim=None, tag="REC"):
+def generate_records(name, module, constants, mode, outpath, timeout, sim=None, tag="REC", cfg_extra=()):
     """Run TLC on a record-emitting model and keep its output (records and summary) gzip-compressed.
     The content depends on the specification only - never on /repo."""
     ensure_dirs()
     tmpdir = os.path.join(WORK, "gen-%s-%d" % (name, os.getpid()))
     os.makedirs(tmpdir, exist_ok=True)
     cfg = os.path.join(tmpdir, "model.cfg")
-    write_cfg(cfg, constants=constants)
+    write_cfg(cfg, constants=constants, extra_lines=cfg_extra)
     extra = []
     if mode == "sim":
         extra = ["-simulate", "num=%d" % sim["num"], "-depth", str(sim["depth"]), "-seed", str(sim["seed"])]
@@ -205,16 +206,16 @@ def generate_records(name, module, constants, mode, outpath, timeout, sim=None, 
     return meta
 
 
-def recordset(name, module, constants, mode="bfs", sim=None, timeout=3600, tag="REC"):
+def recordset(name, module, constants, mode="bfs", sim=None, timeout=3600, tag="REC", cfg_extra=()):
     """Path of the (cached) TLC output for one model; generated on first use.
     Cache key: spec text + model parameters (+ simulation seed).  Nothing of /repo enters it."""
     ensure_dirs()
-    key = hashlib.sha256(json.dumps([spec_hash(module), module, constants, mode, sim, tag], sort_keys=True).encode()).hexdigest()[:12]
+    key = hashlib.sha256(json.dumps([spec_hash(module), module, constants, mode, sim, tag, list(cfg_extra)], sort_keys=True).encode()).hexdigest()[:12]
     path = os.path.join(RECS, "%s-%s.gz" % (name, key))
     with open(os.path.join(RECS, ".%s.lock" % name), "w") as lk:
         fcntl.flock(lk, fcntl.LOCK_EX)
         if not (os.path.exists(path) and os.path.exists(path + ".meta.json")):
-            generate_records(name, module, constants, mode, path, timeout, sim, tag)
+            generate_records(name, module, constants, mode, path, timeout, sim, tag, cfg_extra)
     with open(path + ".meta.json") as f:
         meta = json.load(f)
     return path, meta
